@@ -614,7 +614,9 @@ def oracle(log, res, which=('C05', 'C10')):
                         H, quiet = arg
                         # RFC 4271 4.2 / 6.5: no hold timer with a negotiated hold time of 0; otherwise it fires after H
                         # seconds without a message (integer clock: 1 s, and the message is read after it was handed over)
-                        if H == 0 or quiet < H - 1.5:
+                        # only the unconditional half is judged here: "early" would need the silence on the transport of THIS
+                        # session (collisions feed other transports); early firing is C12's H-peer scenarios
+                        if H == 0:
                             bad.append((f'C10:hold-timer-fired-early:{ST_NAME[fsm0]}:hold={H}',
                                         f'the hold timer fired (4/0) with a negotiated hold time of {H} s, {quiet} s after the last message of the peer'))
                 elif name == 'OpenWaitExpire' and fsm0 == 8:
